@@ -496,6 +496,9 @@ func (n *nodeSim) settle() {
 					if t.Point == "store.cron" && t.Key == "dtlsr_recompute" && n.algo == "prophet" {
 						n.prophetOnAgeTick()
 					}
+					if sp, ok := t.Data.(*simPeer); ok && t.Point == "zappear" {
+						n.dtlsrPeerUp(sp.ps)
+					}
 					n.sched.Release(t, "go")
 				}
 			}
@@ -515,6 +518,9 @@ func (n *nodeSim) settle() {
 			n.lg.Add("release %s:%s", t.Point, shortKey(t.Key))
 			n.res.Probe("hook_release_" + t.Point)
 			if t.Point == "zappear" {
+				if sp, ok := t.Data.(*simPeer); ok {
+					n.dtlsrPeerUp(sp.ps)
+				}
 				for _, o := range parked {
 					if o.Point == "store.register.store" && o.Key == "sim://"+t.Key {
 						// the peer is announced to the core before the manager lists its adapter
@@ -1108,7 +1114,7 @@ func (n *nodeSim) opPeerUp(p int) {
 	ps.upEpoch = n.epoch + 1
 	c := n.core
 	n.prophetOnPeerUp(ps)
-	n.dtlsrPeerUp(ps)
+	// (the DTLSR model learns about the neighbour when the adapter announces it: release of its zappear task)
 	n.inject("peer_up:p"+strconv.Itoa(p), func() { c.RegisterConvergable(inst) })
 	n.onPeerUp(ps)
 }
